@@ -26,7 +26,7 @@ C_LIGHT = 299792458.0
 
 def REQUIRED(tier):
     return ["kernel_direct", "filterbank_fold", "timeseries_fold", "pulse_train", "conservation_checks", "cell_count_checks", "gulp_identity_checks",
-            "regime:gulp<2*maxdelay", "regime:nbands_not_dividing", "regime:accel!=0", "regime:multi_block", "canary_audits", "regime:multi_file_input", "long_folds", "pulse_train_edge_bins", "regime:nbands>nchans", "regime:small_accel_long_fold", "subint_edge_folds", "regime:fold_after_a_failed_fold"]
+            "regime:gulp<2*maxdelay", "regime:nbands_not_dividing", "regime:accel!=0", "regime:multi_block", "canary_audits", "regime:multi_file_input", "long_folds", "pulse_train_edge_bins", "regime:nbands>nchans", "regime:small_accel_long_fold", "subint_edge_folds", "regime:fold_after_a_failed_fold", "regime:series_header_carries_accel"]
 
 
 def cases(tier, seed):
@@ -105,7 +105,12 @@ def _long(case, ctx):
     x = rng.integers(0, 16, size=N).astype(np.float32)
     one = dict(case, geom={"N": N, "tsamp": tsamp, "period": period, "nbins": nbins, "nints": nints, "accel": accel})
     ctx.evaluated(); ctx.count("long_folds")
-    hdr = Header(filename="x.tim", data_type="time series", nchans=1, foff=-1.0, fch1=1400.0, nbits=32, tsamp=tsamp, tstart=58000.0, nsamples=N)
+    # the series itself may carry an acceleration label (it was resampled earlier): the fold uses the acceleration it is asked for
+    labelled = case["seed"] % 100003 % 2 == 0
+    hdr = Header(filename="x.tim", data_type="time series", nchans=1, foff=-1.0, fch1=1400.0, nbits=32, tsamp=tsamp, tstart=58000.0, nsamples=N,
+                 **({"accel": 450.0} if labelled else {}))
+    if labelled:
+        ctx.count("regime:series_header_carries_accel")
     with np.errstate(all="ignore"):
         fd = TimeSeries(x, hdr).fold(period, accel=accel, nbins=nbins, nints=nints)
     s1, c1, a1 = oracle_cube(x.astype(np.float64)[:, None], np.zeros(1, dtype=np.int64), nbins, nints, 1, np.float32(tsamp), np.float32(period), np.float32(accel), N)
